@@ -1,5 +1,7 @@
 import CanVerif.Model.DbcPost
 import CanVerif.Proofs.DbcText
+import CanVerif.Props.C05i
+import CanVerif.Props.C05o
 /-!
 # C05 — the ECU list after the post-processing
 
@@ -101,6 +103,60 @@ theorem post_ecus (m : RMatrix)
   · rw [h, List.filter_append, hfilter _ hnot]
     have : [ph].filter (fun n => n != ph) = [] := by decide
     rw [this, List.append_nil]
+
+/-- **the ECUs of the file come back**: through the file as `dump` writes it and the post-processing of the reader, the ECU list is the
+list that was written - when no ECU carries a long-name attribute, none is called like the placeholder, and every sender and receiver is
+a listed ECU or the placeholder -/
+theorem dbc_file_keeps_ecus (es : List WEcu) (hes : wfEcus es = true) (ts : List WTable) (hts : wfTables ts = true)
+    (ds : List DefLine) (hds : wfDefs ds = true) (dds : List DefDefLine) (hdds : wfDefaults ds dds = true)
+    (ga : List (Str × Str)) (hga : wfAttrs (expectDefs ds dds) .global .global ga = true)
+    (hea : ∀ e ∈ es, wfAttrs (expectDefs ds dds) .ecu (.ecu e.name) e.attrs = true)
+    (ps : List (WFrame × (Nat × Bool))) (hwf : ∀ p ∈ ps, p.1.wf p.2 = true) (hdist : ps.Pairwise fun p q => p.2 ≠ q.2)
+    (hfa : ∀ p ∈ ps, p.1.wfA (expectDefs ds dds) = true)
+    (hnolong : ∀ e ∈ es, lookupAttr (attrsOf e.attrs) "SystemNodeLongSymbol".toList = none)
+    (hnoph : ∀ e ∈ es, e.name ≠ ph)
+    (href : ∀ p ∈ ps, (∀ r ∈ p.1.senders, r ∈ es.map (·.name) ∨ r = ph) ∧
+      ∀ s ∈ p.1.sigs, ∀ r ∈ s.sg.receivers, r ∈ es.map (·.name) ∨ r = ph) :
+    (postProcess (readFile (writeDbc es ts ds dds ga (ps.map (·.1))))).ecus = es.map (·.name) := by
+  have hrt := C05o.dbc_file_roundtrip_line_for_line es hes ts hts ds hds dds hdds ga hga hea ps hwf hdist hfa
+  have hecus := hrt.1
+  have hframes := hrt.2.2.2.1
+  have hname : ∀ e ∈ es, (longName "SystemNodeLongSymbol" (WEcu.expectA e).name (WEcu.expectA e).attrs).1 = e.name := by
+    intro e he
+    have := CanVerif.C05i.no_long_name "SystemNodeLongSymbol" e.name (attrsOf e.attrs) (hnolong e he)
+    simp only [WEcu.expectA]
+    rw [this]
+  have hnames : (readFile (writeDbc es ts ds dds ga (ps.map (·.1)))).ecus.map
+      (fun e => (longName "SystemNodeLongSymbol" e.name e.attrs).1) = es.map (·.name) := by
+    rw [hecus, List.map_map]
+    apply List.map_congr_left
+    intro e he
+    exact hname e he
+  have hident : ∀ e ∈ es, isIdent e.name = true := by
+    intro e he
+    simp only [wfEcus, Bool.and_eq_true, List.all_eq_true, decide_eq_true_eq] at hes
+    exact (hes.1 e he).1.1
+  rw [← hnames]
+  apply post_ecus
+  · intro e' he'
+    rw [hecus] at he'
+    obtain ⟨e, he, rfl⟩ := List.mem_map.mp he'
+    rw [hname e he]
+    exact CanVerif.Dbc.stripWs_ident (hident e he)
+  · intro e' he'
+    rw [hecus] at he'
+    obtain ⟨e, he, rfl⟩ := List.mem_map.mp he'
+    rw [hname e he]
+    exact hnoph e he
+  · intro f hf
+    rw [hframes] at hf
+    obtain ⟨p, hp, rfl⟩ := List.mem_map.mp hf
+    rw [hnames]
+    refine ⟨(href p hp).1, ?_⟩
+    intro s hs r hr
+    simp only [WFrame.expectA, List.mem_map] at hs
+    obtain ⟨w, hw, rfl⟩ := hs
+    exact (href p hp).2 w hw r hr
 
 /-- closed instance: the placeholder and a listed receiver; an unlisted receiver is added (the hypothesis is needed) -/
 example : (postProcess (readFile (["BU_: ECU_A ECU_B", "BO_ 291 F: 8 ECU_A", " SG_ s1 : 0|8@1+ (1,0) [0|0] \"\" Vector__XXX,ECU_B", ""].map String.toList))).ecus =
